@@ -26,6 +26,11 @@ def target_of(num, st, argnode):
         x = fn.d(x["a"][0])
     if x is not None and x["k"] == "un" and x["op"] == "addr":
         return fn.d(x["a"][0])
+    if x is not None:
+        t = num.ty(x)
+        if t.get("ptr") and t.get("pt") is not None and not t.get("rec"):
+            # an out-pointer passed on: the object it designates
+            return {"k": "un", "op": "deref", "a": [x], "t": t["pt"], "id": -2, "loc": x.get("loc", [0, 0])}
     return None
 
 
@@ -251,6 +256,7 @@ class AwsHooks:
     def _memwrite(self, num, st, e, args, zero=False):
         fn = num.fn
         st.notes.setdefault("memw", []).append((e.get("loc", [0])[0], repr(args[0]) if args[0] is not None else "?"))
+        st.notes.setdefault("memw_full", []).append((e.get("loc", [0])[0], args[0], args[2] if len(args) > 2 else None))
         tgt = target_of(num, st, e["a"][0])
         if tgt is not None:
             tt = num.ty(tgt)
@@ -361,6 +367,61 @@ class AwsHooks:
         a = num.fresh(st, "to_lower", None, (1, SIZE_MAX))
         st.extent[a] = Poly.const(256)
         return Poly.atom(a)
+
+    # -- array list growth (re-derived from its own body under C09)
+    def s_aws_array_list_ensure_capacity(self, num, st, e, args):
+        from .num import feasible
+        lp, idx = args[0], args[1]
+        if lp is None or idx is None:
+            return NotImplemented
+        base = "(" + repr(lp) + ")->"
+        outs = []
+        s = st.copy()
+        isz = num.field(s, base + "item_size", "aws_array_list", "item_size")
+        cs0 = num.field(s, base + "current_size", "aws_array_list", "current_size")
+        ln = num.field(s, base + "length", "aws_array_list", "length")
+        need = (idx + 1) * isz if idx.degree() + isz.degree() <= 2 else None
+        # success: storage (possibly re-allocated) of at least (index+1)*item_size bytes
+        ncs = Poly.atom(num.fresh(s, "current_size", None, (0, SIZE_MAX)))
+        nd = num.fresh(s, "data", None, (1, SIZE_MAX))
+        s.env[base + "current_size"] = ncs
+        s.meta[base + "current_size"] = ("aws_array_list", "current_size", "unsigned long")
+        s.env[base + "data"] = Poly.atom(nd)
+        s.meta[base + "data"] = ("aws_array_list", "data", None)
+        s.extent[nd] = ncs
+        s.add(cs0 - ncs)
+        s.add(idx + 1 - SIZE_MAX)
+        if need is not None:
+            s.add(need - ncs)
+        s.vals[e["id"]] = Poly.const(0)
+        outs.append(s)
+        s2 = st.copy()
+        s2.vals[e["id"]] = Poly.const(-1)
+        outs.append(s2)
+        return outs
+
+    def s_aws_array_list_calc_necessary_size(self, num, st, e, args):
+        lp, idx = args[0], args[1]
+        if lp is None or idx is None:
+            return NotImplemented
+        outs = []
+        s = st.copy()
+        isz = num.field(s, "(" + repr(lp) + ")->item_size", "aws_array_list", "item_size")
+        tgt = target_of(num, s, e["a"][2])
+        if tgt is not None and idx.degree() + isz.degree() <= 2:
+            R = Poly.atom(num.fresh(s, "necessary", num.ty(tgt), (0, SIZE_MAX)))
+            num.write(tgt, R, s)
+            s.add_eq(R - (idx + 1) * isz)
+            s.add(idx + 1 - SIZE_MAX)
+            s.vals[e["id"]] = Poly.const(0)
+            outs.append(s)
+        s2 = st.copy()
+        tgt2 = target_of(num, s2, e["a"][2])
+        if tgt2 is not None:
+            num.write(tgt2, None, s2)
+        s2.vals[e["id"]] = Poly.const(-1)
+        outs.append(s2)
+        return outs
 
     # -- array list / misc accessors
     def s_aws_array_list_length(self, num, st, e, args):
